@@ -15,6 +15,7 @@ import (
 	"net/http"
 	"os"
 	"reflect"
+	"runtime/metrics"
 	"strings"
 	"testing"
 
@@ -31,6 +32,49 @@ func init() {
 }
 
 var errVerifC14 = errors.New("verif: scripted error of the inner reader/writer")
+
+// Allocation meter: tracing must not ask for memory out of proportion to the bytes it has
+// seen (a 5-byte hostile prefix must not make the tracer allocate the declared length).
+// Cumulative heap allocation is sampled around the calls into the tracer.
+var (
+	verifC14Sample  = []metrics.Sample{{Name: "/gc/heap/allocs:bytes"}}
+	verifC14Tripped bool
+	verifC14MaxSeen uint64
+)
+
+const verifC14AllocSlack = 16 << 20 // decompressor set-up and the like
+
+func verifC14Allocated() uint64 {
+	metrics.Read(verifC14Sample)
+	return verifC14Sample[0].Value.Uint64()
+}
+
+type verifC14Meter struct{ total, bytes uint64 }
+
+func (m *verifC14Meter) around(n int, f func()) {
+	before := verifC14Allocated()
+	f()
+	m.total += verifC14Allocated() - before
+	m.bytes += uint64(n)
+}
+
+// exceeded reports (and remembers: later cases of this process are not run, so that one
+// oversized request is the only one) an allocation volume beyond slack + 64 x bytes seen.
+func (m *verifC14Meter) exceeded() bool {
+	if m.total > verifC14MaxSeen {
+		verifC14MaxSeen = m.total
+		if os.Getenv("VERIF_DEBUG") != "" {
+			fmt.Fprintf(os.Stderr, "verif c14: max allocation around tracer calls so far: %d bytes (%d traced)\n", m.total, m.bytes)
+		}
+	}
+	if m.total > verifC14AllocSlack+64*m.bytes {
+		verifC14Tripped = true
+		return true
+	}
+	return false
+}
+
+var verifC14AllocErr = "allocation-out-of-proportion-to-bytes-seen"
 
 type verifC14Collector struct{ traces []Trace }
 
@@ -123,6 +167,9 @@ func verifC14Decompressor(kind int64, name string) connect.Decompressor {
 
 // (req stream deckind name table chunks) -> (events)
 func verifC14Raw(args []vsx) vsx {
+	if verifC14Tripped {
+		return vErr(verifC14AllocErr)
+	}
 	coll := &verifC14Collector{}
 	bld := verifC14Builder(coll)
 	isReq := args[0].boolean()
@@ -132,10 +179,14 @@ func verifC14Raw(args []vsx) vsx {
 		decompressor:     verifC14Decompressor(args[2].i, args[3].str()),
 		builder:          bld,
 	}
+	var meter verifC14Meter
 	for _, ch := range args[5].l {
 		// the tracer gets its own copy, surrounded by bytes it must not look at
 		buf := append(append([]byte{0xEE, 0xEE}, ch.b...), 0xEE, 0xEE, 0xEE, 0xEE, 0xEE, 0xEE)
-		tr.trace(buf[2 : 2+len(ch.b)])
+		meter.around(len(ch.b), func() { tr.trace(buf[2 : 2+len(ch.b)]) })
+	}
+	if meter.exceeded() {
+		return vErr(verifC14AllocErr)
 	}
 	// what tryFinish(nil) does
 	tr.emitUnfinished()
@@ -185,6 +236,10 @@ func (r *verifC14Inner) Close() error {
 
 // (req headers table ops) -> ((per call: what the caller got) (events))
 func verifC14Reader(args []vsx) vsx {
+	if verifC14Tripped {
+		return vErr(verifC14AllocErr)
+	}
+	var meter verifC14Meter
 	coll := &verifC14Collector{}
 	bld := verifC14Builder(coll)
 	inner := &verifC14Inner{}
@@ -204,7 +259,9 @@ func verifC14Reader(args []vsx) vsx {
 			}
 			buf := make([]byte, len(inner.data)+int(op.l[3].i))
 			before := inner.reads
-			n, err := rd.Read(buf)
+			var n int
+			var err error
+			meter.around(len(inner.data), func() { n, err = rd.Read(buf) })
 			if inner.reads != before+1 || inner.gotLen != len(buf) {
 				return vErr("inner-read-not-called-once-with-the-callers-buffer")
 			}
@@ -227,6 +284,9 @@ func verifC14Reader(args []vsx) vsx {
 	}
 	if done > 1 {
 		return vErr("when-done-called-twice")
+	}
+	if meter.exceeded() {
+		return vErr(verifC14AllocErr)
 	}
 	bld.build()
 	return vL(vL(results...), verifC14Events(coll))
@@ -252,6 +312,10 @@ func (w *verifC14RespWriter) Write(p []byte) (int, error) {
 
 // (headers table ops) -> ((per Write: n err) (events))
 func verifC14Writer(args []vsx) vsx {
+	if verifC14Tripped {
+		return vErr(verifC14AllocErr)
+	}
+	var meter verifC14Meter
 	coll := &verifC14Collector{}
 	bld := verifC14Builder(coll)
 	inner := &verifC14RespWriter{hdr: verifC14Headers(args[0])}
@@ -265,11 +329,16 @@ func verifC14Writer(args []vsx) vsx {
 			inner.err = errVerifC14
 		}
 		before := inner.writes
-		n, err := tw.Write(data)
+		var n int
+		var err error
+		meter.around(len(data), func() { n, err = tw.Write(data) })
 		if inner.writes != before+1 || !bytes.Equal(inner.got, op.l[0].b) || !bytes.Equal(data, op.l[0].b) {
 			return vErr("inner-write-did-not-get-exactly-the-callers-bytes")
 		}
 		results = append(results, vL(vInt(n), verifC14IOTag(err)))
+	}
+	if meter.exceeded() {
+		return vErr(verifC14AllocErr)
 	}
 	tw.tryFinish(nil) // what TracingHandler does when the handler returns
 	bld.build()
